@@ -1239,7 +1239,11 @@ func (r *realm) cleanSessionDetails(details wamp.Dict) wamp.Dict {
 			}
 		}
 	} else {
-		clean = details
+		// Always hand out a copy. The session's own details may be modified
+		// later (wamp.session.modify_details) while what is returned here is
+		// still queued for, or held by, an in-process recipient.
+		clean = make(wamp.Dict, len(details))
+		maps.Copy(clean, details)
 	}
 
 	// If there is no transport detail, all done.
@@ -1252,12 +1256,6 @@ func (r *realm) cleanSessionDetails(details wamp.Dict) wamp.Dict {
 	authDict := wamp.DictChild(transDict, "auth")
 	if authDict == nil {
 		return clean
-	}
-
-	// If a copy was not previously needed, it is now.
-	if !r.metaStrict {
-		clean = make(wamp.Dict, len(details))
-		maps.Copy(clean, details)
 	}
 
 	// If details.transport.auth exists, then provide version of transport
